@@ -297,8 +297,9 @@ def run_cmd(case):
         work = os.path.join(sbx, "w")
         root = alpha.materialize(tree, os.path.join(work, "p"))
         os.makedirs(os.path.join(work, "o"))
-        meta = os.path.join(work, "o", "m.torrent")
         cmd = case["cmd"]
+        from .core import odd_meta
+        meta = os.path.join(work, "o", odd_meta(case)[1] if cmd in ("recheck", "info", "magnet") else "m.torrent")
         v = case["version"]
         rec = {"id": case["id"], "op": "cmd", "cmd": cmd, "clauses": case["clauses"], "ops": [], "added": [],
                "removed": [], "changed": [], "status": "ok", "target_existed": False, "same_bytes": True,
